@@ -186,6 +186,13 @@ func isoShapes(scratch string, rng *rand.Rand, n int) []*isoShape {
 			{Type: "file", Src: "src/bin", Dst: "/usr/bin/tool"}}
 	}, "")
 	mk("arch-translation", func(c *Cfg, n *[]Node) { c.Arch = "arm6"; c.Release = "" }, "")
+	// a payload file above every buffer / block threshold a packager may special-case (1 MiB and a bit)
+	mk("large-file", func(c *Cfg, n *[]Node) {
+		b := bytes.Repeat([]byte("0123456789abcdef0123456789ABCDEF0123456789abcdef0123456789ABCDE\n"), (1<<20)/64+3)
+		*n = append(*n, Node{P: "src/large.bin", Kind: "file", Mode: 0o644, Mt: 1400000000, Size: len(b), data: b, Cid: cidOf(b)})
+		c.Entries = append(c.Entries, Entry{Type: "file", Src: "src/large.bin", Dst: "/opt/isopkg/large.bin"},
+			Entry{Type: "config", Src: "src/large.bin", Dst: "/etc/isopkg/large.conf"})
+	}, "")
 	// values a packager may want to tidy up (trailing slashes, doubled blanks, padding): whatever it does, it does to its own copy
 	mk("denormalised-values", func(c *Cfg, n *[]Node) {
 		c.RpmPrefixes = []string{"/opt/app/", "/usr//lib/", "/srv/"}
@@ -314,7 +321,7 @@ func permutations(xs []string) [][]string {
 func famIso(tr *Trace, scratch string, seed int64, tier string, workers int, behaviours string) M {
 	os.Unsetenv("SOURCE_DATE_EPOCH")
 	rng := rand.New(rand.NewSource(seed + 99))
-	nshapes := 15
+	nshapes := 16
 	maxLen := 2
 	if tier == "thorough" {
 		nshapes, maxLen = 40, 3
@@ -446,7 +453,7 @@ func famIso(tr *Trace, scratch string, seed int64, tier string, workers int, beh
 func famConc(tr *Trace, scratch string, seed int64, tier string) M {
 	os.Unsetenv("SOURCE_DATE_EPOCH")
 	rng := rand.New(rand.NewSource(seed + 7))
-	nshapes, iters := 14, 12
+	nshapes, iters := 15, 12
 	if tier == "thorough" {
 		nshapes, iters = 20, 40
 	}
@@ -478,7 +485,11 @@ func famConc(tr *Trace, scratch string, seed int64, tier string) M {
 				cr := &concRes{s: s, set: set, mode: mode}
 				for _, procs := range []int{16, 4, 2, 1} {
 					old := runtime.GOMAXPROCS(procs)
-					for it := 0; it < iters/4+1; it++ {
+					nit := iters/4 + 1
+					if s.name == "large-file" && tier != "thorough" { // costly under the race detector: one round per setting
+						nit = 1
+					}
+					for it := 0; it < nit; it++ {
 						var shared nfpm.Config
 						if mode == "shared-config" {
 							var err error
